@@ -10,6 +10,7 @@ mod model;
 mod oracle;
 mod pairs;
 mod runner;
+mod seq;
 mod spec;
 
 mod c01;
